@@ -50,6 +50,20 @@ let show_crs ?(sorted=false) (a : Crs.crs) =
   if !bad then "BADCRS col-out-of-range" else
   "{" ^ string_of_int (List.length a.Crs.rows) ^ " " ^ string_of_int m ^ String.concat "" rows ^ "}"
 
+(* self-check of the Z.ggcd replacement (coq/ExtractCommon.v) against its contract *)
+let () =
+  let open Big_int_Z in
+  let chk a b =
+    let a = big_int_of_string a and b = big_int_of_string b in
+    let (g, (aa, bb)) = BinInt.Z.ggcd a b in
+    let ok = sign_big_int g >= 0 && eq_big_int (mult_big_int g aa) a && eq_big_int (mult_big_int g bb) b
+             && eq_big_int g (gcd_big_int a b)
+             && (sign_big_int g = 0 || eq_big_int (gcd_big_int aa bb) unit_big_int) in
+    if not ok then (prerr_endline "Z.ggcd replacement violates its contract"; exit 3) in
+  List.iter (fun (a, b) -> chk a b)
+    [("0","0"); ("0","5"); ("7","0"); ("12","18"); ("-12","18"); ("12","-18"); ("-12","-18"); ("1","1");
+     ("123456789012345678901234567890","987654321098765432109876543210"); ("-35","49"); ("17","-5")]
+
 let registry : (string, tok -> string) Hashtbl.t = Hashtbl.create 97
 let reg name f = Hashtbl.replace registry name f
 (* the same model function serves the double-instantiated run ("d." prefix) *)
